@@ -34,9 +34,15 @@ type fnInfo struct {
 	index     map[ssa.Value]int
 	n         int
 	intrinsic intrinsicFn
+	redirect  *ssa.Function
 	checked   bool
 	name      string
 }
+
+// redirects: callee name -> harness function with the same signature
+// (environment stubs written in Go inside the harness; every hit is counted
+// in the evidence as a stub).
+var redirects = map[string]*ssa.Function{}
 
 type Worker struct {
 	id       int
@@ -71,6 +77,8 @@ type Worker struct {
 	stubs           map[string]int
 	zz              *ssa.Package // the nondet runtime package
 	initSkipped     map[string]bool
+	uninit          map[*ssa.Global]bool
+	initDone        bool
 	chanCtr         int
 	sched           *scheduler
 	onceDone        map[*Value]bool
@@ -167,6 +175,53 @@ func (w *Worker) global(g *ssa.Global) *Value {
 	return p
 }
 
+// needsSkippedInit: g belongs to a package whose initialiser is not run and
+// that initialiser would have written g. Reading such a global would silently
+// see the zero value, so it ends the path as an engine error (inconclusive).
+func (w *Worker) needsSkippedInit(g *ssa.Global) bool {
+	if v, ok := w.uninit[g]; ok {
+		return v
+	}
+	if w.uninit == nil {
+		w.uninit = map[*ssa.Global]bool{}
+	}
+	r := false
+	if g.Pkg != nil && !w.initAllowed(g.Pkg.Pkg.Path()) && !initProvided[g.String()] {
+		if _, set := w.globals[g]; !set {
+			if ini := g.Pkg.Func("init"); ini != nil {
+				r = refersTo(ini, g, map[*ssa.Function]bool{})
+			}
+		}
+	}
+	w.uninit[g] = r
+	return r
+}
+
+// globals of non-initialised packages that are fine as zero values or are provided by the engine
+var initProvided = map[string]bool{}
+
+func refersTo(fn *ssa.Function, g *ssa.Global, seen map[*ssa.Function]bool) bool {
+	if seen[fn] {
+		return false
+	}
+	seen[fn] = true
+	for _, b := range fn.Blocks {
+		for _, in := range b.Instrs {
+			for _, op := range in.Operands(nil) {
+				if *op == ssa.Value(g) {
+					return true
+				}
+				if f, ok := (*op).(*ssa.Function); ok && f.Pkg == fn.Pkg && strings.HasPrefix(f.Name(), "init#") {
+					if refersTo(f, g, seen) {
+						return true
+					}
+				}
+			}
+		}
+	}
+	return false
+}
+
 func (w *Worker) constValue(c *ssa.Const) Value {
 	if v, ok := w.constCache[c]; ok {
 		return v
@@ -237,6 +292,9 @@ func (fr *frame) get(key ssa.Value) Value {
 	case *ssa.Const:
 		return fr.w.constValue(key)
 	case *ssa.Global:
+		if fr.w.initDone && fr.w.needsSkippedInit(key) {
+			panic(engineError{"library global " + key.String() + " is set by a package initialiser that the engine does not run"})
+		}
 		return fr.w.global(key)
 	}
 	if i, ok := fr.info.index[key]; ok {
@@ -286,9 +344,16 @@ func (w *Worker) callSSA(caller *frame, pos token.Pos, fn *ssa.Function, args []
 	if !fi.checked {
 		fi.checked = true
 		fi.intrinsic = lookupIntrinsic(fn)
+		if r, ok := redirects[fi.name]; ok && r != fn {
+			fi.redirect = r
+		}
 		if w.funcs != nil && fn.Pkg != nil && strings.HasPrefix(fn.Pkg.Pkg.Path(), "rare") {
 			w.funcs[fi.name] = true
 		}
+	}
+	if fi.redirect != nil {
+		w.stub("redirected to harness stub: " + fi.name + " -> " + fi.redirect.Name())
+		return w.callSSA(caller, pos, fi.redirect, args, nil)
 	}
 	fr := &frame{w: w, caller: caller, fn: fn, info: fi, callArgs: args}
 	if fi.intrinsic != nil {
@@ -1061,7 +1126,7 @@ func implementsAll(prog *ssa.Program, t types.Type, it *types.Interface) bool {
 // ---- init policy ----
 
 var initDeny = map[string]bool{
-	"os": true, "syscall": true, "runtime": true, "reflect": true, "sync": true, "time": true,
+	"os": true, "syscall": true, "runtime": true, "reflect": true, "sync": true,
 	"internal/poll": true, "internal/syscall/unix": true, "internal/testlog": true, "internal/godebug": true,
 	"internal/cpu": true, "internal/reflectlite": true, "sync/atomic": true, "internal/oserror": true,
 	"io/fs": true, "os/signal": true, "os/exec": true, "net": true, "log": true, "testing": true, "flag": true,
@@ -1074,7 +1139,7 @@ var initDeny = map[string]bool{
 	"encoding/json": true, "encoding/base64": true, "encoding/binary": true, "html": true, "html/template": true,
 	"text/template": true, "text/template/parse": true, "net/url": true, "go/token": true, "go/scanner": true, "go/ast": true,
 	"github.com/urfave/cli/v2": true, "github.com/russross/blackfriday/v2": true, "github.com/cpuguy83/go-md2man/v2/md2man": true,
-	"github.com/xrash/smetrics": true, "github.com/araddon/dateparse": true, "github.com/tidwall/gjson": true,
+	"github.com/xrash/smetrics": true, "github.com/tidwall/gjson": true,
 	"github.com/tidwall/match": true, "github.com/tidwall/pretty": true, "mime": true, "math/big": true,
 	"hash/fnv": true, "hash/adler32": true, "hash": true, "errors": true,
 }
